@@ -187,7 +187,7 @@ Fixpoint findLoop (n : nat) (fuel : nat) (B used : Z) (si : Z) (c : caps)
 End Machine.
 
 (* ------------------------------------------------------------ entry points *)
-Inductive mres := MCaps (l : list (Z * Z)) | MNil | MFuel.
+Inductive mres := MCaps (l : list (Z * Z)) | MNil | MFuel | MPanic.
 
 Record apires := mkApi { a_res : mres; a_used : Z; a_panicked : bool }.
 
@@ -195,8 +195,8 @@ Definition capture_list (ncap : Z) (start e : Z) (c : caps) : list (Z * Z) :=
   (start, e) :: map (fun k => c (Z.of_nat k)) (seq 1 (Z.to_nat ncap)).
 
 (* Pattern.MatchFromStart (fromStart = true) / Pattern.Match (false),
-   including the deferred recover(): any panic other than budgetConsumed
-   leaves the named results at (nil, 0). *)
+   including the deferred recover(): budgetConsumed is turned into
+   (nil, budget+1); any other panic is raised again (MPanic). *)
 Definition api (fromStart : bool) (p : pattern) (fuel : nat) (s : list Z) (init : Z) (B : Z) : apires :=
   let r :=
     if fromStart && p_sanchor p
@@ -209,6 +209,6 @@ Definition api (fromStart : bool) (p : pattern) (fuel : nat) (s : list Z) (init 
     mkApi (MCaps (capture_list (p_ncap p) start e c)) (if 0 <? B then used else 0) false
   | (ONoMatch _, used, _) => mkApi MNil (if 0 <? B then used else 0) false
   | (OBudget, _, _) => mkApi MNil (B + 1) false
-  | (OPanic, _, _) => mkApi MNil 0 true
+  | (OPanic, _, _) => mkApi MPanic 0 true      (* re-panicked by the deferred function *)
   | (OOutOfFuel, _, _) => mkApi MFuel 0 false
   end.
